@@ -4,6 +4,8 @@ import NurbsVerif.Lemmas.PredicatesVoxel
 import NurbsVerif.Lemmas.PredicatesCtrlpts
 import NurbsVerif.Lemmas.WindingOne
 import NurbsVerif.Lemmas.FrangeGeneral
+import NurbsVerif.Lemmas.BasisPositiveCtrlpts
+import NurbsVerif.Lemmas.FitParams
 
 /-!
 # C20  Planar predicates and spatial queries agree with exact arithmetic
@@ -24,10 +26,16 @@ Not proved (kept visible, see also `PARTIAL` in harness/props/c20.py):
   `≥ 1` for a point strictly left of every edge, `= 0` for a point separated from the vertices by a
   line; for strictly convex polygons the counter is exactly 1 / 0, `wnNum_convex_value`);
 * minimality of the hull in the sense "no proper sub-polygon contains the points" is not stated
-  separately – it is the conjunction of `hull ⊆ input`, strict convexity and distinctness;
-* `theorem findCtrlpts_exact : u strictly inside its span → every returned control point has a
-  non-zero basis function` (strict positivity of A2.2 inside a span is not in the library yet) – only
-  the inclusion "non-zero basis ⟹ returned" is proved.
+  separately – it is the conjunction of `hull ⊆ input`, strict convexity and distinctness.
+
+`find_ctrlpts` (round 7): the returned control points are EXACTLY the active ones.  Strict positivity of
+A2.2 inside a span (`basisFuns_positive_inside`), the exact zero pattern of A2.2 on a closed non-empty
+span (`basisFuns_zero_pattern`, left end `basisFuns_zero_pattern_left_end`), of the Cox–de Boor functions
+on a half-open span (`coxDeBoor_zero_pattern`); `findCtrlpts_exact` / `findCtrlpts_surface_exact` (index
+sets, both inclusions), `findCtrlpts_exact_list` / `findCtrlpts_surface_exact_list` (the returned list is
+the net filtered by "basis function ≠ 0"), `findCtrlpts_active_at_any_parameter` (knots included),
+`findCtrlpts_active_closed_domain`, and the right end `u = U_n`: `findCtrlpts_right_end_indices`,
+`findCtrlpts_right_end_active`, `findCtrlpts_right_end_clamped`.
 -/
 namespace C20
 open Geomdl Blossom
@@ -488,6 +496,174 @@ theorem findCtrlpts_surface_complete (pu pv : ℕ) (Uu Uv : ℕ → K) (su sv : 
     i ∈ findCtrlptsIdx pu Uu su u ∧ j ∈ findCtrlptsIdx pv Uv sv v :=
   ⟨mem_findCtrlptsIdx_of_cdb_ne_zero pu Uu su u hu hmu hlu hhu i (left_ne_zero_of_mul hne),
    mem_findCtrlptsIdx_of_cdb_ne_zero pv Uv sv v hv hmv hlv hhv j (right_ne_zero_of_mul hne)⟩
+
+/-! ## `find_ctrlpts` returns exactly the active control points
+
+Strict positivity of A2.2 and the exact zero pattern of the basis functions; `U` is the knot vector as
+a non-decreasing function `ℕ → K`, `k` a span index, entry `j` of `basisFuns p U k u` is the value of
+`N_{k-p+j,p}` on span `k`. -/
+
+/-- **Strict positivity of A2.2 inside a span.**  For sorted knots and `U_k < u < U_{k+1}` every one
+    of the `p+1` numbers returned by `helpers.basis_function(p, U, k, u)` is positive. -/
+theorem basisFuns_positive_inside (p : ℕ) (U : ℕ → K) (k : ℕ) (u : K) (hm : Monotone U)
+    (h1 : U k < u) (h2 : u < U (k+1)) :
+    (∀ x ∈ basisFuns p U k u, 0 < x) ∧ ∀ j, j ≤ p → 0 < (basisFuns p U k u).getD j 0 :=
+  ⟨basisFuns_pos_inside p hm h1 h2, basisFuns_getD_pos_inside p hm h1 h2⟩
+
+/-- **Exact zero pattern of A2.2 on a closed non-empty span** `U_k ≤ u ≤ U_{k+1}`, `U_k < U_{k+1}`,
+    `p ≤ k`: every entry is `≥ 0`, and entry `j` (the function `N_{i,p}`, `i = k-p+j`) is positive iff
+    (`j = 0` or `U_i < u`) and (`j = p` or `u < U_{i+p+1}`); otherwise it is zero.  Inside the span both
+    conditions hold for every `j`; they can fail only at the two ends of the span. -/
+theorem basisFuns_zero_pattern (p : ℕ) (U : ℕ → K) (k : ℕ) (u : K) (h : SpanOk U k u) (hp : p ≤ k)
+    (j : ℕ) (hj : j ≤ p) :
+    0 ≤ (basisFuns p U k u).getD j 0 ∧
+    (0 < (basisFuns p U k u).getD j 0 ↔ (j = 0 ∨ U (k + j - p) < u) ∧ (j = p ∨ u < U (k + j + 1))) ∧
+    ((basisFuns p U k u).getD j 0 = 0 ↔ ¬ ((j = 0 ∨ U (k + j - p) < u) ∧ (j = p ∨ u < U (k + j + 1)))) :=
+  ⟨basisFuns_getD_nonneg_all p h j, basisFuns_pos_iff h p hp j hj, basisFuns_eq_zero_iff h p hp j hj⟩
+
+/-- **Left end of a span** (`u = U_k`, the case a parameter on a knot produces): entry `j` is
+    positive iff `j = 0` or `U_{k-p+j} < U_k`.  So with `U_k` repeated `m` times among
+    `U_{k-p+1}, …, U_k` the last `m` entries vanish (all but the first when `m = p`), the first `p+1-m`
+    are positive; in particular the last entry `N_{k,p}(U_k)` is `0` for `p ≥ 1`. -/
+theorem basisFuns_zero_pattern_left_end (p : ℕ) (U : ℕ → K) (k : ℕ) (hm : Monotone U) (hne : U k < U (k+1))
+    (hp : p ≤ k) :
+    (∀ j, j ≤ p → (0 < (basisFuns p U k (U k)).getD j 0 ↔ (j = 0 ∨ U (k + j - p) < U k))) ∧
+    (1 ≤ p → (basisFuns p U k (U k)).getD p 0 = 0) :=
+  ⟨fun j hj => basisFuns_pos_iff_left hm hne p hp j hj, fun hp1 => basisFuns_last_zero_left hm hne p hp hp1⟩
+
+/-- **Zero pattern of the Cox–de Boor functions** (Eq. 2.5) on a half-open span `U_k ≤ u < U_{k+1}`:
+    `N_{i,p}(u) ≥ 0`, and `N_{i,p}(u) ≠ 0` iff `k-p ≤ i ≤ k` and (`i = k-p` or `U_i < u`). -/
+theorem coxDeBoor_zero_pattern (p : ℕ) (U : ℕ → K) (k : ℕ) (u : K) (hm : Monotone U) (h1 : U k ≤ u)
+    (h2 : u < U (k+1)) (hp : p ≤ k) (i : ℕ) :
+    0 ≤ cdb U p i u ∧ (cdb U p i u ≠ 0 ↔ (k ≤ i + p ∧ i ≤ k) ∧ (i + p = k ∨ U i < u)) :=
+  ⟨cdb_nonneg hm h1 h2 p hp i, cdb_ne_zero_iff hm h1 h2 p hp i⟩
+
+/-- **`find_ctrlpts` is exact inside a span (curves).**  For `u` in the domain `[U_p, U_n)` and
+    strictly inside the span found (`U_k < u`, `k = find_span_linear(…)`; e.g. `u` is not a knot):
+    control point `i` is returned iff its basis function `N_{i,p}` does not vanish at `u`. -/
+theorem findCtrlpts_exact (p : ℕ) (U : ℕ → K) (n : ℕ) (u : K) (hpn : p + 1 ≤ n)
+    (hm : Monotone U) (hlo : U p ≤ u) (hhi : u < U n) (hin : U (findSpanLinear p U n u) < u) (i : ℕ) :
+    i ∈ findCtrlptsIdx p U n u ↔ cdb U p i u ≠ 0 :=
+  findCtrlptsIdx_exact p U n u hpn hm hlo hhi hin i
+
+/-- the same with the hypothesis "`u` is not one of the knots `U_0 … U_{n-1}`" -/
+theorem findCtrlpts_exact_of_not_knot (p : ℕ) (U : ℕ → K) (n : ℕ) (u : K) (hpn : p + 1 ≤ n)
+    (hm : Monotone U) (hlo : U p ≤ u) (hhi : u < U n) (hk : ∀ i, i < n → U i ≠ u) (i : ℕ) :
+    i ∈ findCtrlptsIdx p U n u ↔ cdb U p i u ≠ 0 :=
+  findCtrlptsIdx_exact p U n u hpn hm hlo hhi (findSpanLinear_inside_of_not_knot p U n u hpn hm hlo hk) i
+
+/-- **List form**: inside a span the list `find_ctrlpts` returns for a curve is the control polygon
+    filtered by "`N_{i,p}(u) ≠ 0`" (same points, same order, nothing else). -/
+theorem findCtrlpts_exact_list {α : Type} (d : α) (p : ℕ) (U : ℕ → K) (P : List α) (u : K)
+    (hpn : p + 1 ≤ P.length) (hm : Monotone U) (hlo : U p ≤ u) (hhi : u < U P.length)
+    (hin : U (findSpanLinear p U P.length u) < u) :
+    findCtrlptsCurve d p U P u
+      = ((List.range P.length).filter (fun i => decide (cdb U p i u ≠ 0))).map (fun i => P.getD i d) :=
+  findCtrlptsCurve_eq_filter d p U P u hpn hm hlo hhi hin
+
+/-- **`find_ctrlpts` is exact inside a span (surfaces).**  `(u, v)` strictly inside the pair of spans
+    found: control point `(i, j)` is in the returned rectangle iff the tensor-product basis function
+    `N_{i,pu}(u)·N_{j,pv}(v)` is non-zero. -/
+theorem findCtrlpts_surface_exact (pu pv : ℕ) (Uu Uv : ℕ → K) (su sv : ℕ) (u v : K)
+    (hu : pu + 1 ≤ su) (hv : pv + 1 ≤ sv) (hmu : Monotone Uu) (hmv : Monotone Uv)
+    (hlu : Uu pu ≤ u) (hhu : u < Uu su) (hlv : Uv pv ≤ v) (hhv : v < Uv sv)
+    (hiu : Uu (findSpanLinear pu Uu su u) < u) (hiv : Uv (findSpanLinear pv Uv sv v) < v) (i j : ℕ) :
+    (i ∈ findCtrlptsIdx pu Uu su u ∧ j ∈ findCtrlptsIdx pv Uv sv v) ↔ cdb Uu pu i u * cdb Uv pv j v ≠ 0 := by
+  rw [findCtrlptsIdx_exact pu Uu su u hu hmu hlu hhu hiu i, findCtrlptsIdx_exact pv Uv sv v hv hmv hlv hhv hiv j]
+  exact mul_ne_zero_iff.symm
+
+/-- **List form for surfaces**: the returned 2-D array is the net `ctrlpts2d` restricted to the rows
+    `i` with `N_{i,pu}(u) ≠ 0` and the columns `j` with `N_{j,pv}(v) ≠ 0`. -/
+theorem findCtrlpts_surface_exact_list {α : Type} (d : α) (pu pv : ℕ) (Uu Uv : ℕ → K) (su sv : ℕ)
+    (P2 : List (List α)) (u v : K)
+    (hu : pu + 1 ≤ su) (hv : pv + 1 ≤ sv) (hmu : Monotone Uu) (hmv : Monotone Uv)
+    (hlu : Uu pu ≤ u) (hhu : u < Uu su) (hlv : Uv pv ≤ v) (hhv : v < Uv sv)
+    (hiu : Uu (findSpanLinear pu Uu su u) < u) (hiv : Uv (findSpanLinear pv Uv sv v) < v) :
+    findCtrlptsSurface d pu pv Uu Uv su sv P2 u v
+      = ((List.range su).filter (fun i => decide (cdb Uu pu i u ≠ 0))).map (fun k =>
+          ((List.range sv).filter (fun j => decide (cdb Uv pv j v ≠ 0))).map (fun l => (P2.getD k []).getD l d)) :=
+  findCtrlptsSurface_eq_filter d pu pv Uu Uv su sv P2 u v hu hv hmu hmv hlu hhu hlv hhv hiu hiv
+
+/-- **Every parameter of `[U_p, U_n)`, knots included**: `N_{i,p}(u) ≠ 0` iff `i` is a returned index
+    and (`i` is the first returned index `k-p`, or `U_i < u`).  On a knot of multiplicity `m ≤ p` the last
+    `m` returned control points therefore have a vanishing basis function – the returned set is a
+    superset of the active set there, and equal to it otherwise. -/
+theorem findCtrlpts_active_at_any_parameter (p : ℕ) (U : ℕ → K) (n : ℕ) (u : K) (hpn : p + 1 ≤ n)
+    (hm : Monotone U) (hlo : U p ≤ u) (hhi : u < U n) (i : ℕ) :
+    cdb U p i u ≠ 0 ↔ i ∈ findCtrlptsIdx p U n u ∧ (i + p = findSpanLinear p U n u ∨ U i < u) :=
+  cdb_ne_zero_iff_findCtrlpts p U n u hpn hm hlo hhi i
+
+/-- **Closed domain `[U_p, U_n]`** (last span non-empty): with the basis functions the evaluation
+    uses – the recursion of the span found, `cdbSpan`, which at `u = U_n` is the left limit – function
+    `i` is non-zero at `u` iff `i` is returned, and (`i = k-p` or `U_i < u`), and (`i = k` or
+    `u < U_{i+p+1}`). -/
+theorem findCtrlpts_active_closed_domain (p : ℕ) (U : ℕ → K) (n : ℕ) (h : KnotsOk p U n) (u : K)
+    (hlo : U p ≤ u) (hhi : u ≤ U n) (i : ℕ) :
+    cdbSpan U (findSpanLinear p U n u) p i u ≠ 0 ↔
+      i ∈ findCtrlptsIdx p U n u ∧ (i + p = findSpanLinear p U n u ∨ U i < u)
+        ∧ (i = findSpanLinear p U n u ∨ u < U (i + p + 1)) :=
+  cdbSpan_ne_zero_iff_findCtrlpts h u hlo hhi i
+
+/-- **Right end of the domain, indices**: at `u = U_n` the span search returns `n-1` and the routine
+    returns the last `p+1` control points `n-1-p, …, n-1`. -/
+theorem findCtrlpts_right_end_indices (p : ℕ) (U : ℕ → K) (n : ℕ) (hm : Monotone U) (hpn : p + 1 ≤ n) :
+    findSpanLinear p U n (U n) = n - 1 ∧ findCtrlptsIdx p U n (U n) = List.range' (n - 1 - p) (p + 1) :=
+  ⟨findSpanLinear_right_end hm hpn, findCtrlptsIdx_right_end p U n hm hpn⟩
+
+/-- **Right end of the domain, activity** (last span non-empty): the left-limit basis function `i` is
+    non-zero at `U_n` iff `i` is returned and (`i = n-1` or `U_n < U_{i+p+1}`). -/
+theorem findCtrlpts_right_end_active (p : ℕ) (U : ℕ → K) (n : ℕ) (h : KnotsOk p U n) (i : ℕ) :
+    cdbSpan U (n - 1) p i (U n) ≠ 0 ↔
+      i ∈ findCtrlptsIdx p U n (U n) ∧ (i = n - 1 ∨ U n < U (i + p + 1)) :=
+  cdbSpan_right_end_ne_zero_iff h i
+
+/-- **Right end of an end-clamped knot vector** (`U_n = U_{n+1} = … = U_{n+p-1}`; the usual clamped
+    vector has `U_n = … = U_{n+p}`): at `u = U_n` the basis functions of the span found are
+    `N_{n-1,p} = 1` and `0` for every other index – of the `p+1` returned control points only the last
+    one is active, with weight one. -/
+theorem findCtrlpts_right_end_clamped (p : ℕ) (U : ℕ → K) (n : ℕ) (h : KnotsOk p U n)
+    (hU : ∀ r, r + 1 ≤ p → U (n + r) = U n) (i : ℕ) :
+    cdbSpan U (findSpanLinear p U n (U n)) p i (U n) = if i = n - 1 then 1 else 0 :=
+  cdbSpan_right_end_clamped h hU i
+
+/-! ### non-vacuity of the `find_ctrlpts` theorems: degree 2, knots `0,0,0,1,1,2,2,2` (inner knot `1`
+    repeated), 5 control points -/
+
+/-- the knot function is non-decreasing and well-formed (`KnotsOk`: last span `[U_4, U_5]` non-empty) -/
+example : KnotsOk 2 (fnOf ([0,0,0,1,1,2,2,2] : List ℚ)) 5 :=
+  ⟨fnOf_monotone_of_isSortedB _ (by decide +kernel), by omega, by decide +kernel⟩
+
+/-- hypotheses of `findCtrlpts_exact` at `u = 3/2` (inside span 4) and `u = 1/2` (inside span 2);
+    the returned indices and the strictly positive A2.2 values -/
+example : let U := fnOf ([0,0,0,1,1,2,2,2] : List ℚ)
+    (U 2 ≤ 3/2 ∧ (3/2 : ℚ) < U 5 ∧ U (findSpanLinear 2 U 5 (3/2)) < 3/2) ∧
+    findCtrlptsIdx 2 U 5 (3/2) = [2, 3, 4] ∧ basisFuns 2 U 4 (3/2) = [1/4, 1/2, 1/4] ∧
+    findCtrlptsIdx 2 U 5 (1/2) = [0, 1, 2] ∧ basisFuns 2 U 2 (1/2) = [1/4, 1/2, 1/4] := by decide +kernel
+
+/-- on the repeated inner knot `u = 1` (left end of span 4, multiplicity 2 = p) the routine still
+    returns `[2, 3, 4]` but only `N_2` is non-zero: the hypothesis "strictly inside" of
+    `findCtrlpts_exact` cannot be dropped; the pattern is the one of `basisFuns_zero_pattern_left_end` -/
+example : let U := fnOf ([0,0,0,1,1,2,2,2] : List ℚ)
+    findCtrlptsIdx 2 U 5 1 = [2, 3, 4] ∧ basisFuns 2 U 4 1 = [1, 0, 0] ∧ U 4 < U 5 ∧ U 3 = U 4 := by decide +kernel
+
+/-- a simple inner knot (`0,0,0,1,2,3,3,3`, `u = 1`, span 3): the last entry vanishes, the others are positive -/
+example : basisFuns 2 (fnOf ([0,0,0,1,2,3,3,3] : List ℚ)) 3 1 = [1/2, 1/2, 0] := by decide +kernel
+
+/-- right end `u = U_5 = 2`: span 4, indices `[2, 3, 4]`, left-limit values `0, 0, 1`; the clamp
+    hypothesis of `findCtrlpts_right_end_clamped` holds -/
+example : let U := fnOf ([0,0,0,1,1,2,2,2] : List ℚ)
+    findSpanLinear 2 U 5 (U 5) = 4 ∧ findCtrlptsIdx 2 U 5 (U 5) = [2, 3, 4] ∧ basisFuns 2 U 4 (U 5) = [0, 0, 1] ∧
+    (∀ r, r + 1 ≤ 2 → U (5 + r) = U 5) := by
+  refine ⟨by decide +kernel, by decide +kernel, by decide +kernel, ?_⟩
+  intro r hr
+  have : r = 0 ∨ r = 1 := by omega
+  rcases this with rfl | rfl <;> decide +kernel
+
+/-- surface hypotheses (`findCtrlpts_surface_exact`): degrees 2 × 1, `(u, v) = (3/2, 1/3)` -/
+example : let Uu := fnOf ([0,0,0,1,1,2,2,2] : List ℚ); let Uv := fnOf ([0,0,1/2,1,1] : List ℚ)
+    (Uu 2 ≤ 3/2 ∧ (3/2 : ℚ) < Uu 5 ∧ Uu (findSpanLinear 2 Uu 5 (3/2)) < 3/2) ∧
+    (Uv 1 ≤ 1/3 ∧ (1/3 : ℚ) < Uv 3 ∧ Uv (findSpanLinear 1 Uv 3 (1/3)) < 1/3) ∧
+    findCtrlptsIdx 1 Uv 3 (1/3) = [0, 1] := by decide +kernel
 
 /-! ## non-vacuity -/
 
